@@ -189,13 +189,46 @@ func opIn(name string, a []*T) (*T, *T) {
 		return VNil, berr("in", a)
 	}
 	x, l := a[0], a[1]
-	memS := App("memS", SBool, Sel("sval", x), Sel("slid", l))
-	memI := App("memI", SBool, Sel("ival", x), Sel("ilid", l))
-	emp := App("emptyL", SBool, Sel("slid", l))
+	memS := memTerm("memS", Sel("sval", x), Sel("slid", l))
+	memI := memTerm("memI", Sel("ival", x), Sel("ilid", l))
+	emp := memTerm("emptyL", nil, Sel("slid", l))
 	val := VBool(Ite(Is("VStr", x), memS, Ite(Is("VIntList", l), memI, False)))
 	ok := Or(And(Is("VStr", x), Is("VStrList", l)),
 		And(Is("VInt", x), Or(Is("VIntList", l), And(Is("VStrList", l), emp))))
 	return val, Ite(ok, ENil, berr("in", a))
+}
+
+// memTerm builds memI / memS / emptyL, evaluated when the list (and element) are literals.
+func memTerm(fn string, x, l *T) *T {
+	if l.isLit() {
+		id := l.Lit.Int64()
+		switch fn {
+		case "emptyL":
+			if sl, ok := StrListOf(id); ok {
+				return BoolT(len(sl) == 0)
+			}
+		case "memI":
+			if il, ok := IntListOf(id); ok {
+				var cs []*T
+				for _, e := range il {
+					cs = append(cs, Eq(x, Int(e)))
+				}
+				return Or(cs...)
+			}
+		case "memS":
+			if sl, ok := StrListOf(id); ok {
+				var cs []*T
+				for _, e := range sl {
+					cs = append(cs, Eq(x, Int(StrID(e))))
+				}
+				return Or(cs...)
+			}
+		}
+	}
+	if fn == "emptyL" {
+		return App(fn, SBool, l)
+	}
+	return App(fn, SBool, x, l)
 }
 
 // GTerm is the fixed meaning of the custom operator `g` that the driver
